@@ -30,6 +30,14 @@ def op_specs(ctx):
     ]
 
 
+def _finite_timeout(p, wait_ev):
+    ent = [e for e in p.events[: p.events.index(wait_ev)] if e.kind == "enter" and e.what.endswith("asyncio_timeout")]
+    if not ent:
+        return False
+    a = ent[-1].args[0] if ent[-1].args else None
+    return isinstance(a, (int, float)) and not isinstance(a, bool) and 0 < a <= 600
+
+
 @rule("R17.1", ["C17"], "T-ORD", floor=20)
 def r17_1(ctx):
     """formNetwork, leaveNetwork and network bring-up, over command outcomes {accepted, refused, raises,
@@ -91,6 +99,9 @@ def r17_1(ctx):
                         bad = f"accepted command followed by {len(wait)} event waits"
                     elif not any(c.endswith("asyncio_timeout") for c in wait[0].ctx):
                         bad = "event wait is not bounded by asyncio_timeout"
+                    elif not _finite_timeout(p, wait[0]):
+                        bad = ("the event wait's asyncio_timeout(...) argument is not a positive number (None means no deadline): the operation can wait "
+                               "forever for an event that never arrives")
                     elif wait[0].args[:1] and getattr(wait[0].args[0], "tag", None) != "listener":
                         bad = f"the awaited future {wait[0].args!r} is not the registered listener"
                     elif (p.terminal == "return") != (wait[0].extra == sl[want]):
@@ -105,6 +116,20 @@ def r17_1(ctx):
                 ctx.violation(f"{f.name}:{bad.split(':')[0][:45]}", f"{pid}: {bad}", func=f, trace=p.trace(40), construct=pid)
             else:
                 ctx.ok(1, pid)
+    # bring-up is skipped only when the NCP reports the network as joined
+    g = repo.func(f"{APP}:ControllerApplication._ensure_network_running")
+    ns = repo.cls(NAMED, "EmberNetworkStatus")
+    app = repo.cls(APP, "ControllerApplication")
+    for m in list(ns.canonical_members()) + [Member(ns, "undefined_0x7f", 0x7F)]:
+        px = PX(repo, models=[("self._ezsp.networkState", Outcomes(OK((m,)))), ("self._ezsp.initialize_network", Outcomes(OK(sl["OK"]))),
+                              ("await:listener", Outcomes(OK(sl["NETWORK_UP"]))), ("*.create_future", lambda px_, t, a, k, fr: fut("listener"))],
+                inline=same_class(extra=("from_ember_status", "wait_for_stack_status")))
+        for p in px.explore(g, lambda: (self_obj(app, {"_ezsp": Obj(ezc, {"_stack_status_listeners": {sl["NETWORK_UP"]: [], sl["NETWORK_DOWN"]: []}}, tag="self._ezsp")}), {})):
+            init = [e for e in p.events if e.kind == "await" and e.what == "self._ezsp.initialize_network"]
+            skipped = not init
+            ctx.require(skipped == (m.name == "JOINED_NETWORK") and p.terminal == "return" and p.value == (not skipped), f"bring-up:state:{m.name}",
+                        f"network state {m.name}: bring-up {'skipped' if skipped else 'performed'}, returns {p.value!r}; only JOINED_NETWORK means the network "
+                        "is already running", func=g, trace=p.trace(10))
     for name in ("NETWORK_OPS_TIMEOUT",):
         ctx.require(0 < const(ctx, EZ, name) <= 120, name, f"{name} out of range")
     ctx.require(0 < const(ctx, APP, "NETWORK_UP_TIMEOUT_S") <= 120, "NETWORK_UP_TIMEOUT_S", "NETWORK_UP_TIMEOUT_S out of range")
